@@ -93,26 +93,22 @@ func minMaxDist(p geom.Point, r *geom.Bounds) float64 {
 		return r.Max.Y
 	}
 
-	// This formula can be computed in linear time by precomputing
-	// S = sum{1<=i<=n}(|pi - rMi|^2).
-
-	S := 0.0
-	d := p.X - rMX()
-	S += d * d
-	d = p.Y - rMY()
-	S += d * d
-
-	// Compute MinMaxDist using the precomputed S.
+	// The two candidates are summed directly. (Precomputing
+	// S = sum{1<=i<=n}(|pi - rMi|^2) and exchanging one term of it, as the
+	// paper suggests for higher dimensions, loses digits to cancellation: the
+	// result could then come out below minDist(p, r) for a rectangle without
+	// width or height, and the nearest-neighbor search pruned the very branch
+	// that holds the nearest object.)
 	min := math.MaxFloat64
-	d1 := p.X - rMX()
-	d2 := p.X - rmX()
-	d = S - d1*d1 + d2*d2
+	d1 := p.X - rmX()
+	d2 := p.Y - rMY()
+	d := d1*d1 + d2*d2
 	if d < min {
 		min = d
 	}
-	d1 = p.Y - rMY()
-	d2 = p.Y - rmY()
-	d = S - d1*d1 + d2*d2
+	d1 = p.Y - rmY()
+	d2 = p.X - rMX()
+	d = d1*d1 + d2*d2
 	if d < min {
 		min = d
 	}
